@@ -182,3 +182,85 @@ fn kd6_stored_resume() {
 fn kd6_stored_tiny_pending() {
     stored_one_call::<2, 20, 4, 2, 8, 6>();
 }
+
+// ---------------------------------------------------------------------------------------------
+// production sizes: the stored block built in the pending buffer when the output is (nearly) full.  With memLevel 9 the
+// pending buffer (128 KiB) is larger than the 64 KiB window, so the only thing that keeps the block within the 16-bit LEN
+// field of RFC 1951 3.2.4 is deflate_stored's own clamp.
+// ---------------------------------------------------------------------------------------------
+static mut SB_LEN: usize = usize::MAX;
+static mut SB_CALLS: usize = 0;
+
+/// contract of `zng_tr_stored_block`: LEN is a 16-bit field, the payload comes out of the window
+pub(crate) fn stub_stored_block_contract(state: &mut State, window_range: core::ops::Range<usize>, _is_last: bool) {
+    assert!(window_range.start <= window_range.end && window_range.end <= state.window_size);
+    assert!(window_range.end - window_range.start <= 65535, "a stored block holds at most 65535 bytes (16-bit LEN)");
+    unsafe {
+        SB_LEN = window_range.end - window_range.start;
+        SB_CALLS += 1;
+    }
+}
+
+#[kani::proof]
+#[kani::unwind(3)]
+#[kani::stub(core::fmt::write, stub_fmt_write)]
+#[kani::stub(core::panicking::panic_nounwind, stub_pn)]
+#[kani::stub(core::panicking::panic_nounwind_fmt, stub_pnf)]
+#[kani::stub(crate::deflate::zng_tr_stored_block, stub_stored_block_contract)]
+fn kd6_stored_pending_block_fits_len16() {
+    const WB: usize = 15;
+    const LB: usize = 32768; // memLevel 9
+    let mut w = [0u8; 2 << WB];
+    let mut p = [0u16; 1 << WB];
+    let mut h = [0u16; HASH_SIZE];
+    let mut pe = [MaybeUninit::new(0u8); 4 * LB];
+    let mut sy = [0u8; 3 * LB];
+    let mut state = typed_state(&mut w, &mut p, &mut h, &mut pe, &mut sy, WB, LB, 0, 0, Strategy::Default);
+    state.status = Status::Busy;
+    state.window_size = 2 << WB;
+    state.last_flush = -2;
+    // the window holds `left` bytes that no block has taken yet (buffered by earlier calls that had no output room)
+    let strstart: usize = kani::any();
+    let block_start: usize = kani::any();
+    kani::assume(strstart <= 2 << WB && block_start <= strstart);
+    state.strstart = strstart;
+    state.block_start = block_start as isize;
+    state.insert = 0;
+    let left = strstart - block_start;
+    let mut stream = typed_stream(unsafe { &mut *(&mut state as *mut State) });
+    let mut out = [0u8; 8];
+    let avail_out: u32 = kani::any();
+    kani::assume(avail_out <= 4); // not even room for a block header: the direct-copy loop is not entered
+    stream.next_out = out.as_mut_ptr();
+    stream.avail_out = avail_out;
+    stream.avail_in = 0;
+    let flush = match kani::any::<u8>() % 4 {
+        0 => DeflateFlush::NoFlush,
+        1 => DeflateFlush::SyncFlush,
+        2 => DeflateFlush::FullFlush,
+        _ => DeflateFlush::Finish,
+    };
+    unsafe {
+        SB_LEN = usize::MAX;
+        SB_CALLS = 0;
+    }
+    let bs = self::algorithm::run(&mut stream, flush);
+    let taken = stream.state.block_start as usize - block_start;
+    // (holds natively whatever the block writer does)
+    assert!(taken <= 65535, "one stored block takes at most 65535 bytes out of the window");
+    assert!(stream.state.strstart == strstart && stream.state.block_start as usize <= strstart);
+    let (calls, len) = unsafe { (SB_CALLS, SB_LEN) };
+    assert!(calls <= 1);
+    if calls == 1 {
+        assert!(len == taken);
+        assert!(matches!(bs, BlockState::FinishStarted) == (matches!(flush, DeflateFlush::Finish) && taken == left));
+    } else {
+        assert!(taken == 0);
+    }
+    // a worthy block (>= w_size bytes waiting) is always written
+    assert!(calls == 1 || left < 32768 || (left == 0));
+    kani::cover!(calls == 1 && len == 65535 && left == 65536);
+    kani::cover!(calls == 0);
+    core::mem::forget(stream);
+    core::mem::forget(state);
+}
